@@ -155,13 +155,20 @@ fn emit(out: &mut String, module: &str, market: bool, shapes: &[Shape]) {
             };
             // some fields carry doc comments / attributes (they are attributes to the derive macro)
             let h = nm.bytes().fold(k as u64 * 31 + 7, |a, b| a.wrapping_mul(131).wrapping_add(b as u64));
-            match h % 5 {
+            match h % 9 {
                 0 => writeln!(out, "        /// member `{}` of shape {}", nm.trim_start_matches("r#"), k).unwrap(),
                 1 => writeln!(out, "        #[allow(dead_code)]").unwrap(),
                 2 if h % 3 == 0 => writeln!(out, "        /// documented\n        #[allow(unused)]").unwrap(),
+                // tool attributes, conditional compilation that is always on, doc attributes: all legal on a
+                // field, none of them means anything to the derive macros
+                3 => writeln!(out, "        #[rustfmt::skip]").unwrap(),
+                4 => writeln!(out, "        #[cfg(all())]").unwrap(),
+                5 if h % 2 == 0 => writeln!(out, "        #[doc(hidden)]").unwrap(),
+                6 if h % 2 == 0 => writeln!(out, "        #[cfg_attr(all(), allow(dead_code))]\n        #[clippy::skip]").unwrap(),
                 _ => {}
             }
-            writeln!(out, "        pub {}: {},", nm, t).unwrap();
+            let vis = ["pub ", "pub(crate) ", "", "pub(super) "][(h / 11 % 4) as usize];
+            writeln!(out, "        {}{}: {},", vis, nm, t).unwrap();
         }
         writeln!(out, "    }}").unwrap();
         writeln!(out, "    impl S{} {{", k).unwrap();
